@@ -11,13 +11,14 @@
 -/
 import GherkinVerif.Lemmas.Markdown
 import GherkinVerif.Gen.Dialects
+import GherkinVerif.KDecide
 namespace GV
 open Spec Md
 
 /-- Facts about the shipped dialect table, checked by the kernel on the regenerated table: no
     title keyword contains `:`; no keyword starts with whitespace (nor `#`, `@`, `|`, `"""`,
     three backticks); no keyword is empty. -/
-theorem C19_dialect_facts : Spec.markdownFacts Gen.dialects = true := by decide +kernel
+theorem C19_dialect_facts : Spec.markdownFacts Gen.dialects = true := by kdecide
 
 /-- The header pattern `^(#{1,6}\s)(kw…):(.*)`: for a keyword `k` of a colon-free list, depth
     `1 ≤ n ≤ 6`, one whitespace code point `b` and any title, the match has prefix length
@@ -185,7 +186,7 @@ example :
       (Md.matchLine .ScenarioLine μ ⟨some l, 1, none, none, none, none, none, 0, [], []⟩ l).bind fun o =>
         o.map fun tok => (tok.keyword, tok.text, tok.col)) =
     some (some (lit "Plan du scénario"), some (lit "Un titre"), some 6) := by
-  decide +kernel
+  kdecide
 
 /-- French bullet steps: `- Soit un x`, and `*  Étant donné qu'il pleut` (two blanks after the
     bullet) where `Étant donné qu'` is listed before the shorter `Étant donné `. -/
@@ -196,7 +197,7 @@ example :
           o.map fun tok => (tok.keyword, tok.text, tok.col)) =
     some [(some (lit "Soit "), some (lit "un x"), some 5),
           (some (lit "Étant donné qu'"), some (lit "il pleut"), some 4)] := by
-  decide +kernel
+  kdecide
 
 /-- The same words without header or bullet prefix are neither a title line nor a step. -/
 example :
@@ -206,7 +207,7 @@ example :
        (Kind.FeatureLine, lit "####### Fonctionnalité: sept\n")].map fun (k, l) =>
         (Md.matchLine k μ ⟨some l, 1, none, none, none, none, none, 0, [], []⟩ l).map Option.isSome) =
     some [some false, some false, some false, some false] := by
-  decide +kernel
+  kdecide
 
 /-- Table indentation 0–6, separator shapes, tag spans with their offsets. -/
 example : (List.range 8).map (fun n => rowIndentOk (List.replicate n 32 ++ lit "| a |\n")) =
